@@ -5,6 +5,36 @@ from ipaddress import IPv4Address, IPv6Address
 from tools.facts.common import fresh_import
 
 
+def need_data_class(socks, util):
+    """The exception class `next_message()` raises when it needs more reply bytes.  It is a
+    private name of the library (not in `__all__`), so it is found by behaviour: a fresh SOCKS5
+    object that has produced its greeting is asked for the next message with nothing received.
+    Falls back to the attribute `NeedData`, then to a class nothing raises."""
+    try:
+        c = socks.SOCKS5(util.NetAddress('1.2.3.4', 80), None)
+        c.next_message()
+        try:
+            c.next_message()
+        except Exception as e:      # the probe: whatever is raised here is "need more data"
+            if not isinstance(e, socks.SOCKSError):
+                return type(e)
+    except Exception:               # the probe itself could not run: use the name
+        pass
+    return getattr(socks, 'NeedData', type('NoNeedData', (Exception,), {}))
+
+
+def need_count(e):
+    """how many bytes a need-more-data exception asks for (None if it does not say)"""
+    for v in getattr(e, 'args', ()):
+        if isinstance(v, int) and not isinstance(v, bool):
+            return v
+    for name in ('count', 'size', 'needed', 'missing'):
+        v = getattr(e, name, None)
+        if isinstance(v, int) and not isinstance(v, bool):
+            return v
+    return None
+
+
 class Mods:
     """the repo's modules, imported from the tree under test"""
 
@@ -12,6 +42,7 @@ class Mods:
         self.socks = fresh_import(repo, 'aiorpcx.socks')
         self.util = fresh_import(repo, 'aiorpcx.util')
         self.cls = {'4': self.socks.SOCKS4, '4a': self.socks.SOCKS4a, '5': self.socks.SOCKS5}
+        self.NeedData = need_data_class(self.socks, self.util)
 
 
 class Livelock(BaseException):
@@ -51,8 +82,11 @@ class StubAddress:
 
 
 # a case is (proto, host, port, auth) with
-#   host = ('4', bytes4) | ('6', bytes16) | ('n', str)
+#   host = ('4', bytes4) | ('6', bytes16) | ('z', bytes16: IPv6 with the zone ZONE) | ('n', str)
 #   auth = None | (username str, password str)
+ZONE = 'eth0'
+
+
 def enc_cps(s):
     return '.'.join(format(ord(ch), 'x') for ch in s) if s else '_'
 
@@ -80,7 +114,7 @@ def dec_cps(s):
 
 
 def dec_case(line):
-    proto, h, port, a = line.split()
+    proto, h, port, a = line.split()[:4]
     kind, v = h.split(':')
     host = ('n', dec_cps(v)) if kind == 'n' else (kind, bytes.fromhex(v))
     auth = None
@@ -103,7 +137,15 @@ def host_object(host):
         return IPv4Address(bytes(v))
     if kind == '6':
         return IPv6Address(bytes(v))
+    if kind == 'z':
+        return IPv6Address(f'{IPv6Address(bytes(v))}%{ZONE}')
     return v
+
+
+def host_string(host):
+    """the destination as a caller of create_connection would write it"""
+    kind, v = host
+    return v if kind == 'n' else str(host_object(host))
 
 
 def make_address(mods, host, port, stub=False):
@@ -131,13 +173,13 @@ def drive_object(mods, client, chunks, fuel=16):
     messages/exception for the oracle."""
     out, raw = [], []
     chunks = list(chunks)
-    NeedData = mods.socks.NeedData
+    NeedData = mods.NeedData
     for _ in range(fuel):
         try:
             m = client.next_message()
         except NeedData as e:
-            out.append(f'N{e.args[0]}')
-            raw.append(('need', e.args[0]))
+            out.append(f'N{need_count(e)}')
+            raw.append(('need', need_count(e)))
             if not chunks:
                 break
             client.receive_data(chunks.pop(0))
